@@ -1,4 +1,5 @@
 import FoxModel.Lemmas.LRU
+import FoxModel.Lemmas.LRURing
 import FoxModel.Model.Heap
 /-
   Property C03 — the writable-node cache of a write transaction (internal/simplelru).
@@ -76,10 +77,58 @@ theorem heap_writable_is_cache (c : LRU) (id v : Nat) (hnew : c.contains id = fa
     rw [List.take_of_length_le]
     simp; omega
 
+/-! ### the pointer structure of list.go
+
+  `Model/LRURing` is list.go statement by statement: a ring of entries with `next` / `prev` pointers that may be nil and
+  a sentinel, `insert` / `Remove` / `move` / `MoveToFront` / `PushFront` / `Back`, and `LRU.Add` / `LRU.Get` of lru.go on
+  top of them with the `items` map. Reading a nil pointer makes an operation fail. -/
+
+/-- **`LRU.Get` on the ring** is `get` of the list model, and keeps the ring well formed -/
+theorem ring_get {r : Ring.Ring} {order : List Nat} (h : Ring.Inv r order) (k : Nat) :
+    ∃ r' order', Ring.get r k = some (r', ((Ring.absOf r order).get k).2) ∧ Ring.Inv r' order' ∧
+      Ring.absOf r' order' = ((Ring.absOf r order).get k).1 :=
+  Ring.get_refines h k
+
+/-- **`LRU.Add` on the ring** is `add` of the list model (an existing key is moved to the front by pointer surgery; a new
+    entry is linked in after the sentinel and, beyond the capacity, `Back()` is unlinked and its key deleted) -/
+theorem ring_add {r : Ring.Ring} {order : List Nat} (h : Ring.Inv r order) (k v : Nat) :
+    ∃ r' order', Ring.add r k v = some (r', ((Ring.absOf r order).add k v).2) ∧ Ring.Inv r' order' ∧
+      Ring.absOf r' order' = ((Ring.absOf r order).add k v).1 :=
+  Ring.add_refines h k v
+
+/-- **Any Add / Get traffic of a transaction**, of any length and at any capacity, on a fresh cache: the pointer
+    structure never dereferences nil, stays a well-formed ring, answers exactly as the list model does and holds what the
+    list model holds -/
+theorem ring_never_fails_and_is_the_list (cap : Nat) (ops : List Ring.TOp) :
+    ∃ r' order', Ring.run (Ring.new cap) ops = some (r', (run (empty cap) (ops.map Ring.TOp.toOp)).2) ∧
+      Ring.Inv r' order' ∧ Ring.absOf r' order' = (run (empty cap) (ops.map Ring.TOp.toOp)).1 := by
+  have := Ring.run_refines ops (Ring.inv_new cap)
+  rwa [Ring.abs_new] at this
+
+/-- hence a `Get` hit on the real structure names a key that was added: the two layers composed -/
+theorem ring_present_only_if_added (cap : Nat) (ops : List Ring.TOp) (k : Nat) :
+    ∃ r', Ring.run (Ring.new cap) ops = some (r', (run (empty cap) (ops.map Ring.TOp.toOp)).2) ∧
+      ∀ r'' out, Ring.get r' k = some (r'', some out) → k ∈ added (ops.map Ring.TOp.toOp) := by
+  obtain ⟨r', order', hrun, hinv, habs⟩ := ring_never_fails_and_is_the_list cap ops
+  refine ⟨r', hrun, ?_⟩
+  intro r'' out hg
+  obtain ⟨r2, o2, hg2, _, _⟩ := Ring.get_refines hinv k
+  rw [hg2] at hg
+  simp only [Option.some.injEq, Prod.mk.injEq] at hg
+  have hsome : ((Ring.absOf r' order').get k).2.isSome = true := by rw [hg.2]; rfl
+  rw [habs] at hsome
+  exact (answers_sound cap (ops.map Ring.TOp.toOp) k).1 hsome
+
 /-! ### examples -/
 
 example : (run (empty 2) [.add 1 10, .add 2 20, .get 1, .add 3 30, .contains 2, .keys]).2 =
     [.bool false, .bool false, .val (some 10), .bool true, .bool false, .list [1, 3]] := by decide
 example : added [.add 1 10, .purge, .add 2 20, .get 1] = [2] := by decide
+
+/-- the ring model computes: three adds into a cache of two, a hit, the contents read off the pointers -/
+example : ((Ring.run (Ring.new 2) [.add 1 10, .add 2 20, .get 1, .add 3 30, .get 2]).map (·.2)) =
+    some [.bool false, .bool false, .val (some 10), .bool true, .val none] := by decide
+example : ((Ring.run (Ring.new 2) [.add 1 10, .add 2 20, .get 1, .add 3 30]).bind fun p => Ring.contents p.1) =
+    some [(3, 30), (1, 10)] := by decide
 
 end Fox.C03.Cache
